@@ -1,6 +1,7 @@
 package medialib
 
 import (
+	"sync/atomic"
 	"fmt"
 	"strings"
 
@@ -156,6 +157,7 @@ func RunScripts(c *hlib.Ctx, tag string, scripts []Script) {
 				Detail: fmt.Sprintf("after op %d (%s)", bad, sc.Ops[bad])})
 		}
 	}
+	c.CountN("script-demuxer-catch-up-lost", int(atomic.SwapInt64(&CatchUpLost, 0)))
 }
 
 func trunc(s string, n int) string {
